@@ -1019,6 +1019,25 @@ func (w *world) srcAt(pos token.Pos, class string) string {
 	return ""
 }
 
+// returnsLiteralNil: the return statement at pos has the identifier nil as its last result expression.
+func (w *world) returnsLiteralNil(pos token.Pos) bool {
+	if pos == token.NoPos || w.fset == nil {
+		return false
+	}
+	tf := w.fset.File(pos)
+	if tf == nil || w.files[tf.Name()] == nil {
+		return false
+	}
+	path, _ := astutil.PathEnclosingInterval(w.files[tf.Name()], pos, pos)
+	for _, n := range path {
+		if r, ok := n.(*ast.ReturnStmt); ok && r.Return == pos && len(r.Results) > 0 {
+			id, isId := r.Results[len(r.Results)-1].(*ast.Ident)
+			return isId && id.Name == "nil"
+		}
+	}
+	return false
+}
+
 // finishTop emits the obligations of every return site of the top-level function.
 func (g *gen) finishTop(fc *fnCtx) {
 	for i, rs := range fc.rets {
